@@ -90,6 +90,9 @@ struct MEntry {
     maybe_evicted: bool,
     /// written by an earlier instance (disk cache after Recreate)
     old_instance: bool,
+    /// no TTL was given and the configuration has `default_ttl: None` ("no expiration" says the config
+    /// documentation; the code falls back to 1 h / 24 h): the entry may expire at the fall-back time or never
+    soft_ttl: bool,
 }
 impl MEntry {
     fn surely_expired(&self, t_lo: u64) -> bool {
@@ -206,7 +209,7 @@ impl Run<'_> {
             (Some(v), cur) => {
                 if let Some(e) = cur {
                     if e.value == v {
-                        if e.surely_expired(t_lo) {
+                        if e.surely_expired(t_lo) && !e.soft_ttl {
                             let old = e.old_instance;
                             let d = format!(
                                 "op #{i} get(k{k}) served a value whose time-to-live ended: put at +{}..{}ns with ttl {}ns, read at +{}ns{}",
@@ -304,14 +307,14 @@ impl Scenario for Cache {
         } else {
             SutCfg::Memory {
                 policy: (*rng.pick(&["Lru", "Lfu", "Fifo", "Random", "Ttl"])).to_string(),
-                max_entries: *rng.pick(&[1usize, 2, 3, 5, 10, 1000]),
+                max_entries: *rng.pick(&[1usize, 2, 3, 5, 10, 1000, 1000, usize::MAX]),
                 max_bytes: *rng.pick(&[None, None, None, Some(1usize), Some(10), Some(100), Some(1000), Some(100_000)]),
                 default_ttl_ms: *rng.pick(&ttl_choices),
                 cleanup: rng.chance(15, 100),
             }
         };
         let (cap, byte_lim) = match &sut {
-            SutCfg::Memory { max_entries, max_bytes, .. } => (*max_entries, max_bytes.unwrap_or(200)),
+            SutCfg::Memory { max_entries, max_bytes, .. } => ((*max_entries).min(1000), max_bytes.unwrap_or(200)),
             SutCfg::Disk { max_files, .. } => ((*max_files).min(6), 200),
         };
         let nkeys = ((cap as f64 * (1.5 + rng.below(16) as f64 / 10.0)) as usize + 1).clamp(2, 24);
@@ -327,7 +330,8 @@ impl Scenario for Cache {
                 *wi = 0;
             }
         }
-        let ttls = [0u64, NS, 50 * MS, S, H, 24 * H];
+        // u64::MAX stands for Duration::MAX ("never expires"), the one before it for 584 years
+        let ttls = [0u64, NS, 50 * MS, S, H, 24 * H, 50 * MS, S, u64::MAX, u64::MAX - 1];
         let advs = [US * 5, 10 * MS, 49 * MS, 51 * MS, 999 * MS, 1001 * MS, 59 * 60 * S, 61 * 60 * S, 23 * H, 25 * H, 6 * 60 * S];
         let mut ops = Vec::with_capacity(nops);
         for _ in 0..nops {
@@ -437,6 +441,7 @@ async fn run(case: &Case, ctx: &mut Ctx) -> Option<Violation> {
         ),
     };
     let is_mem = sut_name == "memory";
+    let no_default_ttl = matches!(&case.sut, SutCfg::Memory { default_ttl_ms: None, .. } | SutCfg::Disk { default_ttl_ms: None, .. });
     let mut r = Run {
         case,
         keys: (0..nkeys).map(SimKey::n).collect(),
@@ -463,6 +468,17 @@ async fn run(case: &Case, ctx: &mut Ctx) -> Option<Violation> {
                 let ttl = if let Op::PutTtl { ttl_ns, .. } = op { *ttl_ns } else { default_ttl };
                 let val = payload(((i as u64 + 1) << 16) | k as u64, *len);
                 // could this put trigger an eviction? (memory cache only; upper bound on what is stored)
+                if !is_mem {
+                    // a disk cache may enforce max_files at put time as well as in its cleanup task
+                    let present = r.m.iter().filter(|km| km.cur.is_some()).count();
+                    if 2 * (present + 1) > max_entries {
+                        for km in r.m.iter_mut() {
+                            if let Some(e) = km.cur.as_mut() {
+                                e.maybe_evicted = true;
+                            }
+                        }
+                    }
+                }
                 if is_mem {
                     let (cnt, bytes) = r.m.iter().filter_map(|km| km.cur.as_ref()).fold((0usize, 0usize), |a, e| (a.0 + 1, a.1 + e.value.len()));
                     // "at a limit" is taken generously (half full): when and how far a cache evicts near its limits
@@ -477,7 +493,7 @@ async fn run(case: &Case, ctx: &mut Ctx) -> Option<Violation> {
                     }
                 }
                 let res = if let Op::PutTtl { ttl_ns, .. } = op {
-                    sut.c().put_with_ttl(r.keys[k].clone(), Bytes::from(val.clone()), Duration::from_nanos(*ttl_ns)).await
+                    sut.c().put_with_ttl(r.keys[k].clone(), Bytes::from(val.clone()), if *ttl_ns == u64::MAX { Duration::MAX } else { Duration::from_nanos(*ttl_ns) }).await
                 } else {
                     sut.c().put(r.keys[k].clone(), Bytes::from(val.clone())).await
                 };
@@ -492,10 +508,21 @@ async fn run(case: &Case, ctx: &mut Ctx) -> Option<Violation> {
                         }
                         // a value larger than the whole byte budget may legitimately not be admitted
                         let oversized = is_mem && max_bytes.is_some_and(|mb| *len > mb);
-                        km.cur = Some(MEntry { value: val, put_lo: t_lo, put_hi: t_hi, ttl, maybe_evicted: oversized, old_instance: false });
+                        let soft_ttl = matches!(op, Op::Put { .. }) && no_default_ttl;
+                        let at_disk_limit = !is_mem && r.m.iter().filter(|km| km.cur.is_some()).count() * 2 + 2 > max_entries;
+                        r.m[k].cur = Some(MEntry { value: val, put_lo: t_lo, put_hi: t_hi, ttl, maybe_evicted: oversized || at_disk_limit, old_instance: false, soft_ttl });
                     }
                     Err(e) => {
-                        return Some(r.viol("C10.op.no_error", "op_error", ",op=put", format!("op #{i} {name}(k{k}, {len} bytes) failed without any injected fault: {e}")));
+                        // a value larger than the whole byte budget may be refused with an error instead of being
+                        // dropped silently; the previous value of the key may or may not survive that
+                        if is_mem && max_bytes.is_some_and(|mb| *len > mb) {
+                            ctx.count("oversized_put_refused");
+                            if let Some(old) = r.m[k].cur.as_mut() {
+                                old.maybe_evicted = true;
+                            }
+                        } else {
+                            return Some(r.viol("C10.op.no_error", "op_error", ",op=put", format!("op #{i} {name}(k{k}, {len} bytes) failed without any injected fault: {e}")));
+                        }
                     }
                 }
             }
@@ -528,7 +555,7 @@ async fn run(case: &Case, ctx: &mut Ctx) -> Option<Violation> {
                     Ok(true) => {
                         ctx.obs(&[1]);
                         match r.m[k].cur.as_ref() {
-                            Some(e) if !e.surely_expired(t_lo) => {}
+                            Some(e) if !e.surely_expired(t_lo) || e.soft_ttl => {}
                             Some(e) => {
                                 let d = format!("op #{i} contains(k{k}) = true although the entry's ttl ({}ns from +{}ns) ended before +{}ns", e.ttl, e.put_hi, t_lo);
                                 let by = if e.old_instance { ",why=expired,by=new_instance" } else { ",why=expired,by=same_instance" };
@@ -591,6 +618,29 @@ async fn run(case: &Case, ctx: &mut Ctx) -> Option<Violation> {
                 if s.is_err() || st.is_err() {
                     return Some(r.viol("C10.op.no_error", "op_error", ",op=size", format!("op #{i} size()/stats() failed without any injected fault")));
                 }
+                // The reported figures must lie between what is certainly retrievable now and what may still be
+                // present (an expired entry nobody has looked at yet may still be counted: expiry is lazy).
+                let t_hi = seams::virt_elapsed_ns();
+                let (mut lo_n, mut lo_b, mut hi_n, mut hi_b) = (0usize, 0usize, 0usize, 0usize);
+                for km in &r.m {
+                    if let Some(e) = &km.cur {
+                        hi_n += 1;
+                        hi_b += e.value.len();
+                        if e.surely_live(t_hi) && !e.maybe_evicted {
+                            lo_n += 1;
+                            lo_b += e.value.len();
+                        }
+                    }
+                }
+                let (n, b) = (s.unwrap_or(0), st.map(|x| x.memory_usage_bytes).unwrap_or(0));
+                let by = if r.recreated { ",by=new_instance" } else { "" };
+                if n < lo_n || b < lo_b {
+                    return Some(r.viol("C10.books.midrun", "figures_below_retrievable", by, format!("op #{i} size()={n} usage={b} bytes, but {lo_n} entries / {lo_b} bytes are certainly retrievable at that moment")));
+                }
+                if n > hi_n || b > hi_b {
+                    return Some(r.viol("C10.books.midrun", "figures_above_present", by, format!("op #{i} size()={n} usage={b} bytes, but at most {hi_n} entries / {hi_b} bytes can be present")));
+                }
+                ctx.count("midrun_figures_checked");
             }
             Op::Advance { ns } => {
                 advance_both(Duration::from_nanos(*ns)).await;
@@ -607,7 +657,10 @@ async fn run(case: &Case, ctx: &mut Ctx) -> Option<Violation> {
                     tokio_since_start = tokio_since_start.saturating_add(*ns);
                     let n_hi = tokio_since_start / (300 * S);
                     let n_lo = before.saturating_sub(MS) / (300 * S);
-                    if n_hi > n_lo || first_tick_pending {
+                    // when exactly the cleanup task ticks (immediate first tick, catch-up bursts, the timer wheel's
+                    // granularity) is scheduling detail: any advance of the clock may contain a tick
+                    let _ = (n_hi, n_lo);
+                    if true {
                         // tokio rounds timer deadlines up to its 1 ms wheel granularity, so the interval's
                         // "immediate" first tick fires at construction only if that instant sits on a
                         // millisecond boundary, and otherwise in whichever advance crosses the next one:
